@@ -53,7 +53,7 @@ def _polygon(rng, m):
     return X + rng.normal(scale=0.008, size=X.shape)
 
 
-def template(rng, kind):
+def template(rng, kind, wide=False):
     """-> (X (n,3) float64, bonds [(parent, child)] in natural parent-first numbering, element symbols, resname)"""
     if kind == "ion":
         return np.zeros((1, 3)), [], ["Na"], "NA"
@@ -68,7 +68,7 @@ def template(rng, kind):
         n = int(rng.integers(4, 13))
         parents = [int(rng.integers(0, k)) for k in range(1, n)]
     elif kind == "big":
-        n = int(rng.integers(12, 41))
+        n = int(rng.integers(12, 121 if wide else 41))
         parents = [int(rng.integers(max(0, k - 3), k)) for k in range(1, n)]
     elif kind in ("ring", "fused"):
         m = int(rng.integers(3, 9))
@@ -143,14 +143,14 @@ def local_relabel(rng, kind, n, bonds, mode, perm_index=None):
     return rng.permutation(n)
 
 
-def system_kinds(rng, system):
+def system_kinds(rng, system, wide=False):
     if system == "single":
         return [str(rng.choice(["chain", "ring", "branched", "fused", "water_ohh", "water_hho", "big"]))]
     if system == "few":
-        return [str(rng.choice(MOL_KINDS)) for _ in range(int(rng.integers(2, 7)))]
+        return [str(rng.choice(MOL_KINDS)) for _ in range(int(rng.integers(2, 13 if wide else 7)))]
     if system == "solvated":
         sol = [str(rng.choice(["big", "big", "branched", "fused", "chain"])) for _ in range(int(rng.integers(1, 4)))]
-        nsolv = int(rng.integers(10, 26))
+        nsolv = int(rng.integers(10, 61 if wide else 26))
         p = rng.random()
         solv = [str(rng.choice(["water_ohh", "water_hho", "ion"], p=[p * 0.8, (1 - p) * 0.8, 0.2])) for _ in range(nsolv)]
         return sol + solv
@@ -171,10 +171,11 @@ def build(case):
     from mdtraj.core import element as elem
     rng = common.rng_for("C11case", case["seed"])
     nf = case["n_frames"]
-    kinds = system_kinds(rng, case["system"])
+    wide = bool(case.get("wide"))
+    kinds = system_kinds(rng, case["system"], wide)
     order = rng.permutation(len(kinds))
     kinds = [kinds[k] for k in order]
-    tmpl = [template(rng, k) for k in kinds]
+    tmpl = [template(rng, k, wide) for k in kinds]
     sizes = [len(t[0]) for t in tmpl]
     na = int(sum(sizes))
     # labels ---------------------------------------------------------------------------------------------------
